@@ -43,7 +43,7 @@ func EntriesFor(kind string) []string {
 var AllEntries = []string{
 	"Decode", "DecodeTiff", "DecodeJPEG", "DecodePng", "DecodeCR3", "DecodeCR2", "DecodeHeif", "PreviewCR3",
 	"ExifParse", "ScanJPEG", "ScanJPEGDrain", "ScanTiffHeader", "ScanPngHeader", "BMFF", "ParseXmp",
-	"ItScan", "ItScanBuf", "ItReadAt", "ItBuf",
+	"ItScan", "ItScanBuf", "ItReadAt", "ItBuf", "ItHelpers",
 }
 
 func kindOfSample(name string, b []byte) string {
